@@ -15,7 +15,7 @@ import (
 	"golang.org/x/tools/go/ssa"
 )
 
-var idxProbe func(idx string)
+var idxProbe func(inner, idx string)
 
 type Env struct {
 	fc       *FnCtx
@@ -204,7 +204,14 @@ func (env *Env) indexV(b V, i string) V {
 		et := elemOf(b.Ty)
 		idx := add64(b.T[1], i)
 		if idxProbe != nil {
-			idxProbe(idx)
+			cs := fc.e.comps(et)
+			mk := fc.e.memKey(et)
+			if b.Mem != "" {
+				mk = b.Mem
+			}
+			if len(cs) > 0 {
+				idxProbe(sx("select", fc.heapGet(env.cur, mk+"."+cs[0].Suf, memSort(cs[0].Sort)), b.T[0]), idx)
+			}
 		}
 		if b.Mem != "" {
 			cs := fc.e.comps(et)
@@ -562,11 +569,13 @@ func (env *Env) quant(e *EQuant) V {
 	// Change of variable for an integer index: if the body reads s[... + i ...], quantify over the absolute index
 	// K = off + ... + i instead (i := K - rest; a bijection on 64-bit vectors), so that the select terms have a plain
 	// variable as index and match every other select on the same array.
-	if os.Getenv("GOVC_COV") != "" && len(e.Vars) == 1 && len(binders) == 1 && strings.HasSuffix(binders[0], " (_ BitVec 64))") && len(e.Pats) == 0 {
+	covPattern := ""
+	if (os.Getenv("GOVC_COV") != "" || (fc.c != nil && fc.c.AbsIdx)) && len(e.Vars) == 1 && len(binders) == 1 && strings.HasSuffix(binders[0], " (_ BitVec 64))") && len(e.Pats) == 0 {
 		bv := env.bound[e.Vars[0].Name].T[0]
 		var found *Lin
+		foundInner := ""
 		saveProbe := idxProbe
-		idxProbe = func(idx string) {
+		idxProbe = func(inner, idx string) {
 			if found != nil {
 				return
 			}
@@ -580,6 +589,7 @@ func (env *Env) quant(e *EQuant) V {
 				}
 			}
 			found = l
+			foundInner = inner
 		}
 		func() {
 			defer func() { idxProbe = saveProbe }()
@@ -597,10 +607,16 @@ func (env *Env) quant(e *EQuant) V {
 				k := fmt.Sprintf("|q%d_K|", fc.qctr)
 				binders = []string{fmt.Sprintf("(%s (_ BitVec 64))", k)}
 				env.bound[e.Vars[0].Name] = V{Ty: env.bound[e.Vars[0].Name].Ty, T: []string{sub64(k, linTerm(rest))}}
+				if !strings.Contains(foundInner, "|q") {
+					covPattern = sx("select", foundInner, k)
+				}
 			}
 		}
 	}
 	body := env.evalBool(e.Body)
+	if covPattern != "" {
+		body = fmt.Sprintf("(! %s :pattern (%s))", body, covPattern)
+	}
 	if len(e.Pats) > 0 {
 		var ps []string
 		for _, pe := range e.Pats {
@@ -720,6 +736,12 @@ func (env *Env) callExpr(e *ECall) V {
 			out.T = append(out.T, fv.T...)
 		}
 		return out
+	case "isslice":
+		// isslice(b, a, lo): b == a[lo:]
+		argc(3)
+		b, a := env.eval(e.Args[0]), env.eval(e.Args[1])
+		lo := fc.toInt64(env.constTo(env.eval(e.Args[2]), types.Typ[types.Int]))
+		return boolV(and(eq(b.T[0], a.T[0]), eq(b.T[1], add64(a.T[1], lo)), eq(b.T[2], sub64(a.T[2], lo))))
 	case "prefixof":
 		// r starts where s starts and fits into s's capacity
 		argc(2)
@@ -1170,8 +1192,12 @@ func (env *Env) resolveTarget(text string) []modTarget {
 		}
 		et := elemOf(b.Ty)
 		mt := modTarget{kind: "mem", ref: b.T[0], lo: fc.def("tlo", sBV(64), add64(b.T[1], lo)), hi: fc.def("thi", sBV(64), add64(b.T[1], hi))}
+		mk := fc.e.memKey(et)
+		if b.Mem != "" {
+			mk = b.Mem
+		}
 		for _, c := range fc.e.comps(et) {
-			mt.keys = append(mt.keys, fc.e.memKey(et)+"."+c.Suf)
+			mt.keys = append(mt.keys, mk+"."+c.Suf)
 			mt.sorts = append(mt.sorts, c.Sort)
 		}
 		return []modTarget{mt}
